@@ -196,6 +196,35 @@ pub fn record(seed: u64, tier: &str, out_path: &str) {
         let mut longer = msg.clone(); longer.push(0);
         check("long-msg", &pk, &longer, &sig, false);
     }
+    // several verifier objects alive at once on one thread, fed alternately: each holds its own message
+    for t in 0..(if thorough { 40 } else { 10 }) {
+        let sd1: [u8; 32] = rng.bytes(32).try_into().unwrap();
+        let sd2: [u8; 32] = rng.bytes(32).try_into().unwrap();
+        let (pk1, pk2) = (interp::pk_of_seed(&sd1), interp::pk_of_seed(&sd2));
+        let (l1, l2) = (1 + rng.below(300) as usize, 1 + rng.below(300) as usize);
+        let m1 = rng.bytes(l1);
+        let m2 = rng.bytes(l2);
+        let (s1, s2) = (interp::sign_oneshot(&sd1, &m1).to_vec(), interp::sign_oneshot(&sd2, &m2).to_vec());
+        let r = guarded(|| {
+            let mut v1 = MsgVerifier::new(&pk1);
+            let (a1, b1) = m1.split_at(m1.len() / 2);
+            v1.update(a1);
+            let mut v2 = MsgVerifier::new(&pk2);          // created while v1 holds half of its message
+            let (a2, b2) = m2.split_at(m2.len() / 2);
+            v2.update(a2);
+            v1.update(b1);
+            v2.update(b2);
+            let order = t % 2 == 0;
+            let (r1, r2) = if order { let x = v1.verify(&s1); (x, v2.verify(&s2)) } else { let y = v2.verify(&s2); (v1.verify(&s1), y) };
+            // and each refuses the other's signature
+            (r1, r2, v1.verify(&s2), v2.verify(&s1))
+        });
+        let (r1, r2, x1, x2) = r.unwrap_or((false, false, true, true));
+        for (case, imp, oracle, len) in [("interleaved-1", r1, true, m1.len()), ("interleaved-2", r2, true, m2.len()), ("interleaved-cross-1", x1, false, m1.len()), ("interleaved-cross-2", x2, false, m2.len())] {
+            writeln!(out, "{}", json!({"ev": "verify", "case": case, "impl": imp, "oracle": oracle, "len": len})).unwrap();
+            events += 1;
+        }
+    }
     // edge cases of the verification equation itself: small-order public keys and small-order R with S = 0 (a direct RFC 8032
     // verification accepts those for which R = [S]B - [k]A holds; a "strict" verifier refuses them all), S + L and S with high
     // bits set (refused by both)
